@@ -168,11 +168,11 @@ class ParseItem(ParseContract):
         elif kind == 'call':
             has_open, has_head = True, True
             has_close, has_tail = cx.bool('has-closing-bracket'), cx.bool('text-after-closing-bracket')
-            cx.assume(z3.Implies(has_tail, has_close), axiom='contract of partition_scope (assumed): nothing follows a missing closing bracket')
+            cx.assume(z3.Implies(has_tail, has_close), axiom='contract of partition_scope (c19_scope): nothing follows a missing closing bracket')
         elif kind == 'group':
             has_head = False
             has_open, has_close, has_tail = cx.bool('has-opening-bracket'), cx.bool('has-closing-bracket'), cx.bool('text-after-closing-bracket')
-            cx.assume(z3.And(z3.Implies(has_close, has_open), z3.Implies(has_tail, has_close)), axiom='contract of partition_scope (assumed): closing bracket only after an opening one, tail only after a closing one')
+            cx.assume(z3.And(z3.Implies(has_close, has_open), z3.Implies(has_tail, has_close)), axiom='contract of partition_scope (c19_scope): closing bracket only after an opening one, tail only after a closing one')
         else:
             has_open = has_close = has_tail = has_head = False
         S.has = dict(open=has_open, close=has_close, tail=has_tail, head=has_head)
@@ -343,7 +343,7 @@ def contracts():
 
 
 TRUSTED = ['parse_item/parse_power: what the functions learn from the text are symbolic facts (emptiness, first character, bracket characters, characters after the underscore)']
-ASSUMPTIONS = ['contract of partition_scope ASSUMED (not proved): the open/close pieces are empty or one bracket character of the respective kind; a closing bracket only after an opening one; a tail only after a closing bracket',
+ASSUMPTIONS = ['parse_item uses partition_scope by its contract (proved in c19_scope.PartitionScope): the open/close pieces are empty or one bracket character of the respective kind; a closing bracket only after an opening one; a tail only after a closing bracket',
                'sub-results in parse_item carry lowercase letters as indices (established by parse_item itself: only `a`..`z` become indices)',
                'the backend returns a shape whose length is the number of index characters it was asked for (the protocol of _ArrayOps; the code asserts it)',
                'the hint about `+ - /` in the error message (s_trimmed.__contains__) is only explored for the blank item']
